@@ -1091,3 +1091,52 @@ def rule_internal_class_match(ctx):
                              "for internal" % (render(c)[:70], render(strip(ln[3][0]))[:30], render(strip(tabs[0]))[:30]))
     ctx.floor("INTERNALCLS", 2, n, "(comparisons against the tables of reserved class names)")
     return n
+
+
+TAGREF_CALLS = {"DFdiput": (1, 2), "Vaddtagref": (1, 2), "Hstartread": (1, 2), "Hstartwrite": (1, 2), "Hstartaccess": (1, 2), "Hputelement": (1, 2),
+                "Hgetelement": (1, 2), "Hlength": (1, 2), "Hexist": (1, 2), "Hoffset": (1, 2), "Hdeldd": (1, 2), "HDreuse_tagref": (1, 2),
+                "Vinqtagref": (1, 2), "Vdeletetagref": (1, 2), "HDcheck_tagref": (1, 2), "Hdupdd": (1, 2), "HLcreate": (1, 2), "HCcreate": (1, 2),
+                "HXcreate": (1, 2), "HMCcreate": (1, 2), "Hfind": (1, 2)}
+
+
+def rule_tag_ref_of_one_pair(ctx):
+    """TAGREFPAIR (C15, C09): an object is named by a tag *and* a reference, and the records of the raster and SD interfaces keep several
+    such pairs side by side (`img_tag`/`img_ref`, `lut_tag`/`lut_ref`, `lut_dim.dim_tag`/`lut_dim.dim_ref`, ..).  Where a call takes a
+    tag and a reference and both arguments are members of a record, they must be the two halves of one pair: the same record
+    path and the same stem (`X_tag` with `X_ref`).  A reference taken from the neighbouring pair designates some other object —
+    often an existing one, so nothing fails: the group simply points at the wrong palette or the wrong data."""
+    import re
+    prog = ctx.prog
+    n = 0
+    occ = {}
+
+    def stem(name, what):
+        return re.sub(what, "", name)
+
+    for f in prog.lib_funcs():
+        for _b, _i, s, c in f.calls():
+            if c[1] not in TAGREF_CALLS:
+                continue
+            ti, ri = TAGREF_CALLS[c[1]]
+            if len(c[3]) <= ri:
+                continue
+            t, r = strip(c[3][ti]), strip(c[3][ri])
+            if kind(t) != "mem" or kind(r) != "mem":
+                continue
+            ft, fr = t[2], r[2]
+            if "tag" not in ft or "ref" not in fr:
+                continue
+            n += 1
+            key = "TAGREFPAIR:%s:%s" % (f.name, c[1])
+            occ[key] = occ.get(key, 0) + 1
+            if occ[key] > 1:
+                key += "#%d" % occ[key]
+            line = s.get("l", f.line)
+            same_base = render(strip(t[1])) == render(strip(r[1]))
+            same_stem = stem(ft, "tag") == stem(fr, "ref")
+            if same_base and same_stem:
+                ctx.holds("TAGREFPAIR", key, f.where(line), "`%s` / `%s` are the two halves of one pair" % (render(t)[:40], render(r)[:40]), nontrivial=True)
+            else:
+                ctx.violated("TAGREFPAIR", key, f.where(line), "%s() is given the tag `%s` with the reference `%s`, which belongs to another tag/ref pair of the record: the call names an object other than the one meant" % (c[1], render(t)[:50], render(r)[:50]))
+    ctx.floor("TAGREFPAIR", 20, n, "(calls given a tag and a reference that are both record members)")
+    return n
